@@ -742,6 +742,62 @@ def check_include_accounting(chk, rule='C09.I'):
     return True
 
 
+def _loop_helpers(repo):
+    """functions of runtime.py that belong to the statement loop: _execute_script_helper, the module functions only it calls, and the methods of classes only it instantiates"""
+    mod = repo.module('runtime')
+    loop = mod.funcs.get('_execute_script_helper')
+    out = {'_execute_script_helper'}
+    if loop is None:
+        return out
+    called = {n.func.id for n in ast.walk(loop) if isinstance(n, ast.Call) and isinstance(n.func, ast.Name)}
+    for name in called:
+        others = [f for fn, f in mod.funcs.items() if fn != '_execute_script_helper' and not fn.startswith(name + '.')
+                  and any(isinstance(n, ast.Call) and isinstance(n.func, ast.Name) and n.func.id == name for n in ast.walk(f))]
+        if others:
+            continue
+        if name in getattr(mod, 'classes', {}):
+            out |= {fn for fn in mod.funcs if fn.startswith(name + '.')}
+        elif name in mod.funcs and name not in ('evaluate_expression', 'execute_script', '_script_function'):
+            out.add(name)
+    return out
+
+
+def check_counter_shape(chk, step_ok, which=('D', 'R', 'W')):
+    """C09.D / R / W shape read-backs.  When the evaluation of the statement loop decided positively (step_ok), what they say about code that belongs to the statement loop is advisory:
+    C09.D altogether, C09.W / C09.R for the helper functions and helper-object methods only the loop uses (the loop function itself stays under the rules)"""
+    bf, bu, bi = len(chk.findings), len(chk.unrecognised), len(chk.instances)
+    if 'D' in which:
+        chk.guard('C09.D', check_dominance, chk)
+    if 'R' in which:
+        chk.guard('C09.R', check_limit_reads, chk)
+    if 'W' in which:
+        chk.guard('C09.W', check_stores, chk)
+    if not step_ok:
+        return
+    loop_fns = _loop_helpers(chk.repo) - {'_execute_script_helper'}
+    short = {x.split('.')[-1] for x in loop_fns}
+    keep = []
+    for f in chk.findings[bf:]:
+        if f.rule == 'C09.D' or (f.rule in ('C09.W', 'C09.R') and f.file.endswith('runtime.py') and (f.func in loop_fns or f.func in short)):
+            chk.note(f'{f.rule} shape read-back not confirmed by the evaluation of the statement loop, ignored: {f.what[:140]} [{f.func}]')
+        else:
+            keep.append(f)
+    gone = len(chk.findings) - bf - len(keep)
+    chk.findings[bf:] = keep
+    if gone:
+        chk.instances[bi:] = [i for i in chk.instances[bi:] if i['verdict'] != 'VIOLATION' or any(f.construct[:40] in i['instance'] for f in keep)]
+    keep_u = []
+    for u in chk.unrecognised[bu:]:
+        if u['rule'] == 'C09.D':
+            chk.note(f"C09.D shape read-back: {u['what']} - decided by the evaluation of the statement loop")
+        else:
+            keep_u.append(u)
+    chk.unrecognised[bu:] = keep_u
+    if any(n.startswith('C09.D') for n in chk.notes):
+        for r in ('C09.D', 'C09.T', 'C09.R'):
+            chk.floors.pop(r, None)
+
+
 def check_identity_with_sim(chk):
     data_ok = chk.guard('C09.I', check_data_accounting, chk)
     inc_ok = chk.guard('C09.I', check_include_accounting, chk)
@@ -769,7 +825,16 @@ def check_identity_with_sim(chk):
                 keep_u.append(u)
         chk.unrecognised[before_u:] = keep_u
     if data_ok:
-        # what the shape read-back could not recognise about the data.py helpers is decided by the evaluation above
+        # what the shape read-back says / could not recognise about the data.py helpers is decided by the evaluation above
+        keep_f = []
+        for f in chk.findings[before_f:]:
+            if f.rule == 'C09.I' and f.file.endswith('data.py') and 'write-back' in f.construct:
+                chk.note(f'C09.I shape read-back not confirmed by the evaluation of the data helpers, ignored: {f.what[:160]}')
+            else:
+                keep_f.append(f)
+        if len(keep_f) != len(chk.findings) - before_f:
+            chk.findings[before_f:] = keep_f
+            chk.instances[before_i:] = [i for i in chk.instances[before_i:] if not (i['verdict'] == 'VIOLATION' and 'write-back' in i['instance'] and 'data.py' in i['instance'])]
         keep = []
         for u in chk.unrecognised[before_u:]:
             if u['rule'] == 'C09.I' and u['what'].startswith('data.'):
@@ -787,9 +852,15 @@ def run(chk):
     chk.rule('C09.I', 'options identity at every statement-executing call; copies written back in finally; callbacks pass options unchanged', floor=12)
     chk.rule('C09.H', 'call wrapper re-raises BareScriptRuntimeError before the catch-all (shared with C05)', floor=1)
     chk.assumptions += ['counts are integers; host callbacks do not tamper with options[statementCount]']
-    chk.guard('C09.D', check_dominance, chk)
-    chk.guard('C09.R', check_limit_reads, chk)
-    chk.guard('C09.W', check_stores, chk)
+    # the statement loop evaluated (E6s, shared with C08): every run's statement count and abort behaviour under a limit agree with the documented semantics
+    from . import c08
+    chk.rule('C08.E', 'shared with C08: the statement loop evaluated on small jump-level models under a statement limit - one count per statement, abort when the count exceeds the limit')
+    for r in ('C08.J', 'C08.L', 'C08.R'):
+        chk.rule(r, 'shared with C08 (part of the same evaluation)')
+    bf, bu = len(chk.findings), len(chk.unrecognised)
+    chk.guard('C08.E', c08.check_step, chk)
+    step_ok = len(chk.findings) == bf and len(chk.unrecognised) == bu
+    check_counter_shape(chk, step_ok, ('D', 'R', 'W'))
     check_identity_with_sim(chk)
     chk.guard('C09.I', check_callbacks, chk)
     chk.guard('C09.H', check_handler_order, chk)
